@@ -122,6 +122,20 @@ def run_check(mod, tier: str, workers: int = 16) -> int:
     pid = mod.PID
     seed = int(os.environ.get("VERIF_SEED", "0") or 0)
     t0 = time.time()
+    # every temporary file / directory of this run (real trees for the replays, spool files) lives below one directory that THIS process
+    # removes at the end: pool workers are ended without running their atexit handlers
+    import shutil
+    import tempfile
+    run_tmp = tempfile.mkdtemp(prefix=f"verif_{pid}_")
+    os.environ["TMPDIR"] = run_tmp
+    tempfile.tempdir = None
+    try:
+        return _run_check(mod, tier, workers, seed, t0)
+    finally:
+        shutil.rmtree(run_tmp, ignore_errors=True)
+
+
+def _run_check(mod, tier: str, workers: int, seed: int, t0: float) -> int:
     jobs = mod.jobs(tier)
     # longest-first scheduling when the harness gives weights
     jobs = sorted(jobs, key=lambda j: -j.get("weight", 1))
